@@ -37,7 +37,7 @@ ASSUMPTIONS = [
     'during the hostile phase the harness is the peer: what the victim writes is read and ignored (two real Protocols would otherwise bounce an event named send for ever)',
     'a failing case is attributed to known findings only through neutralised twins; when several known triggers are present the smallest set of triggers whose neutralisation makes the case pass is used',
 ]
-REQUIRED = ['firewalls_given_to_a_node_component_server', 'firewalls_given_to_a_node_component_node', 'firewalls_given_to_a_node_component_client', 'send_and_receive_firewalls_disagree', 'locally_fired_event_bound_to_the_peer', 'event_relayed_to_another_connection', 'calls_executed_remotely', 'results_received', 'cut_inside_packet', 'cut_inside_delimiter', 'byte_at_a_time_cases',
+REQUIRED = ['remote_handler_returned_a_falsy_result', 'firewalls_given_to_a_node_component_server', 'firewalls_given_to_a_node_component_node', 'firewalls_given_to_a_node_component_client', 'send_and_receive_firewalls_disagree', 'locally_fired_event_bound_to_the_peer', 'event_relayed_to_another_connection', 'calls_executed_remotely', 'results_received', 'cut_inside_packet', 'cut_inside_delimiter', 'byte_at_a_time_cases',
             'packet_over_4k', 'inflight_ge2', 'server_to_client_calls', 'client_to_server_calls', 'send_firewall_rejections',
             'recv_firewall_rejections', 'firewall_consulted', 'receiver_raised', 'receiver_generator', 'hostile_packets',
             'hostile_meta_keys_tried', 'hostile_unhashable_channels', 'hostile_truncated', 'hostile_wrong_type', 'hostile_deep_nesting',
@@ -170,6 +170,10 @@ def classes():
                 return {'r': name, 't': self.tag, 'd': digest(args, kwargs)}
             if b == 'echo':
                 return {'a': args, 'k': kwargs, 't': self.tag}
+            if b == 'arg0':     # the handler's result is its first argument as it is: 0, False, '', [], {} are results like any other
+                if args and args[0] is not None and not args[0]:
+                    w.marks.add('remote_handler_returned_a_falsy_result')
+                return args[0] if args else 0
             if b == 'none':
                 return None
             if b == 'boom':
@@ -638,6 +642,10 @@ def expected_result(call, behaviour, tags):
             vals.append({'a': call['args'], 'k': call['kwargs'], 't': t})
         elif b == 'gen':
             vals.append({'g': call['name'], 't': t, 'd': d})
+        elif b == 'arg0':
+            v = call['args'][0] if call['args'] else 0
+            if v is not None:
+                vals.append(v)
     if not vals:
         return None
     return vals[0] if len(vals) == 1 else vals
@@ -799,6 +807,8 @@ def run_calls(case):
                     bump('ok:RESULT_BACK')
                     bump('results_received')
                 continue
+            if b == 'arg0' and len(tags) > 1:
+                continue    # how several handlers' results are folded into one is the receiving Value's business, not this property's
             exp = canon(expected_result(c, w.behaviour, tags))
             if val != exp:
                 problems.append(('RESULT_BACK', {'call': i, 'name': name, 'behaviour': b, 'expected': exp[:400], 'received': val[:400]}, 'wrong'))
@@ -1503,6 +1513,9 @@ def gen_pred(rng, names):
     return {}
 
 
+FALSY = [0, 0.0, -0.0, False, '', [], {}]
+
+
 def gen_calls(rng, hot_rate=0.15):
     """hot = payloads may contain the delimiter / a key named value (triggers of two known findings)."""
     conns = rng.choice([2, 2, 3]) if rng.random() < 0.25 else 1
@@ -1526,8 +1539,12 @@ def gen_calls(rng, hot_rate=0.15):
             name, chans = 'init', rng.choice([[], ['node']])
         if name not in behaviour:
             behaviour[name] = rng.choice(behaviours if len(chans) < 2 else ['ret', 'echo', 'none'])
+            if len(chans) < 2 and rng.random() < 0.12:
+                behaviour[name] = 'arg0'
         big = rng.choice([5000, 9000, 21000]) if i == big_at else 0
         args, kwargs = gen_payload(rng, hot, big)
+        if behaviour[name] == 'arg0' and rng.random() < 0.7:
+            args = [rng.choice(FALSY)] + list(args[1:])
         r = rng.random()
         style = 'direct' if r < 0.5 else 'call' if r < 0.8 else 'bound' if r < 0.92 else 'noresult'
         calls.append({'from': frm, 'name': name, 'args': args, 'kwargs': kwargs, 'channels': chans, 'style': style,
@@ -1762,6 +1779,12 @@ def corpus():
     cs.append(calls_case([call('c0', 'hello', [1], success=True, failure=True, notify=True)], {'hello': 'ret'}))
     # the event is fired locally first and one of its own handlers hands it to send() (auto-binding): the promise of that fire() gets the
     # peer's result
+    # results that are falsy but are results: the sender gets exactly them back, in every call style and in both directions
+    for st_ in ('direct', 'call', 'bound'):
+        cs.append(calls_case([call(f, 'hello', [v], style=st_, wave=k) for k, (f, v) in enumerate(zip(['c0', 's0'] * 4, FALSY + [None, 1, 'x']))],
+                             {'hello': 'arg0'}, {'c2s': [7], 's2c': [5]}))
+    cs.append(calls_case([call('c0', 'hello', [v]) for v in FALSY], {'hello': 'arg0'}))
+    cs.append(calls_case([call('c0', 'hello', [0], success=True, notify=True), call('s0', 'ping', [False], style='call', success=True)], {'hello': 'arg0', 'ping': 'arg0'}))
     for b in ('ret', 'echo', 'gen', 'none', 'boom'):
         cs.append(calls_case([call('c0', 'hello', [1, 'x'], style='bound')], {'hello': b}))
         cs.append(calls_case([call('s0', 'hello', [2], style='bound', success=True), call('c0', 'ping', [3], style='bound', notify=True)], {'hello': b, 'ping': 'ret'}))
